@@ -111,6 +111,24 @@ func init() {
 					cases = append(cases, Case{"doc": d, "flags": Flags{}})
 				}
 			}
+			// "concatenation twins" in one piece and one key: degree + symbol (+ bass) that read alike when written without a
+			// separator (I7 / XVII, I6 / XVI, I9 / XIX, II7 / XXVII, bass 1 + symbol ...): each chord sounds its own notes
+			for ki, k := range supportedKeys {
+				if c.quick() && ki%4 != 0 {
+					continue
+				}
+				d := Doc{}
+				for _, tw := range [][2]string{{"1", "7"}, {"17", ""}, {"1", "6"}, {"16", ""}, {"1", "9"}, {"19", ""}, {"2", "7"}, {"27", ""}, {"1", "m7"}, {"1", "m"}, {"b1", "7"}, {"b17", ""},
+					{"17", ""}, {"1", "7"}, {"#1", "9"}, {"#19", ""}, {"1", "69"}, {"16", "9"}} {
+					if tw[1] == "69" || (tw[0] == "16" && tw[1] == "9") {
+						continue // (no such built-in symbols)
+					}
+					d = append(d, Inst{Deg: tw[0], Sym: tw[1], Vals: one()})
+				}
+				d = append(d, Inst{Deg: "1", Sym: "", Base: "15", Vals: one()}, Inst{Deg: "11", Sym: "", Base: "5", Vals: one()}, Inst{Deg: "1", Sym: "", Base: "5", Vals: one()})
+				d[0].Key = k
+				cases = append(cases, Case{"doc": d, "flags": Flags{}})
+			}
 			for i := 0; i < nh; i++ {
 				o := GenOpt{MaxLen: 40, RestP: 0.25, KeyP: 0.3, MaxDeg: 15, AllMarks: true, BassP: 0.4, Syms: allSymbols()}
 				d := randomDoc(rng, o)
